@@ -1,12 +1,15 @@
 #!/bin/bash
 # tools/seed_batch.sh Cxx [extra pids...] — validates /tmp/seed-out/Cxx/{1,2,3} against ./check Cxx (+extras), 3 in parallel
+# env: SEEDDIR (default /tmp/seed-out), OFFSET (default 0: directory n is filed as Cxx-(n+OFFSET))
 p=$1; shift
+D=${SEEDDIR:-/tmp/seed-out}; O=${OFFSET:-0}
 for n in 1 2 3; do
-  [ -f /tmp/seed-out/$p/$n/patch.diff ] || continue
-  ( /verif/tools/seed_validate.py /tmp/seed-out/$p/$n $p-$n $p "$@" > /verif/work/sv-$p-$n.txt 2>&1 ) &
+  [ -f $D/$p/$n/patch.diff ] || continue
+  m=$((n+O))
+  ( /verif/tools/seed_validate.py $D/$p/$n $p-$m $p "$@" > /verif/work/sv-$p-$m.txt 2>&1 ) &
 done
 wait
-for n in 1 2 3; do
+for n in $((1+O)) $((2+O)) $((3+O)); do
   [ -f /verif/work/sv-$p-$n.txt ] && /venv/bin/python - /verif/work/sv-$p-$n.txt $p-$n <<'P'
 import json,sys
 try: d=json.load(open(sys.argv[1]))
